@@ -767,6 +767,11 @@ func checkDecodeCashAddress(input string) (result []byte, prefix string, t Addre
 		t = AddrTypePayToPubKeyHash
 	case 0x08:
 		t = AddrTypePayToScriptHash
+	default:
+		// Any other version byte carries an address type or hash size
+		// this decoder does not understand: reject it rather than
+		// silently treating it as P2PKH.
+		return data, prefix, AddrTypePayToPubKeyHash, ErrUnknownAddressType
 	}
 	return data[1:21], prefix, t, nil
 }
